@@ -40,7 +40,7 @@ func (rle *RLE) SameValueEncoding(in []byte, out []byte) ([]byte, error) {
 	size := uint16(len(values))
 	out = append(out, uint8(size>>8), uint8(size&0xff))
 
-	if values[0] == 0 {
+	if util.Bytes2Uint64Slice(in)[0] == 0 {
 		return out, nil
 	}
 
